@@ -5,7 +5,7 @@
    equal the id part of the constructor model Screen.mk_screen.  Each numpy / pandas call is one primitive with a list meaning (end of
    Model/Encode.v); the order and wiring of the calls is the translation's. *)
 From Coq Require Import ZArith List Bool Lia ZifyBool Arith Sorted.
-From Batchie Require Import Lib.Sexp Lib.PyRt Generated.Consts Generated.SrcArith Model.Encode Model.Screen Generated.SrcEncode
+From Batchie Require Import Lib.Sexp Lib.PyRt Generated.Consts Generated.SrcArithC01 Model.Encode Model.Screen Generated.SrcEncode
   Generated.SrcScreenIds Proofs.PyRtLemmas Proofs.C01Sort Proofs.C01Encode Proofs.C03Screen.
 Import ListNotations.
 Open Scope Z_scope.
@@ -394,7 +394,7 @@ Proof.
     destruct (opt_map_all (tlookup (build_tmapping ctrl keys)) keys); reflexivity.
 Qed.
 
-(* the round-1 reading of the control comparison (Generated/SrcArith.v) is the operator the translation applies
+(* the round-1 reading of the control comparison (Generated/SrcArithC01.v) is the operator the translation applies
    to the dose column: the constant is redundant now, and consistent *)
 Theorem src_dose_is_control_consistent : forall doses : list Z, series_le0 doses = map src_dose_is_control doses.
 Proof. reflexivity. Qed.
